@@ -206,6 +206,10 @@ class SimNet:
         self.connects = list(connects or [])
         self.n_tx = 0
         self.n_conn = 0
+        self.fault_offset = 0
+        self.conn_offset = 0
+        self.default_fault = OK_FAULT
+        self.default_connect = OK_FAULT
         self._heap = []
         self._seq = 0
         self.transports = []
@@ -227,6 +231,21 @@ class SimNet:
 
     def open_transports(self, owner=None):
         return [t for t in self.transports if t.is_open() and (owner is None or t._protocol is owner)]
+
+    def begin_script(self, faults=(), default=None, connects=(), default_connect=None):
+        """Install a fault script that applies to the transmissions/connects made from now on (per-request scripts
+        for sequential histories: a request that transmits more or less often than planned does not shift the
+        faults of the requests after it)."""
+        self.faults = list(faults)
+        self.fault_offset = self.n_tx
+        self.default_fault = default or OK_FAULT
+        self.connects = list(connects)
+        self.conn_offset = self.n_conn
+        self.default_connect = default_connect or OK_FAULT
+
+    def fault_at(self, i):
+        j = i - self.fault_offset
+        return self.faults[j] if 0 <= j < len(self.faults) else self.default_fault
 
     # ------------------------------------------------------------- event heap
     def _push(self, t, item):
@@ -294,7 +313,8 @@ class SimNet:
     def _next_connect(self):
         j = self.n_conn
         self.n_conn += 1
-        return j, (self.connects[j] if j < len(self.connects) else OK_FAULT)
+        jj = j - self.conn_offset
+        return j, (self.connects[jj] if 0 <= jj < len(self.connects) else self.default_connect)
 
     async def open_udp(self, loop, factory, remote):
         j, c = self._next_connect()
@@ -353,10 +373,10 @@ class SimNet:
         """Called from transport.sendto()/write().  Returns an OSError to be reported as a send error, or None."""
         i = self.n_tx
         self.n_tx += 1
-        fault = self.faults[i] if i < len(self.faults) else OK_FAULT
+        fault = self.fault_at(i)
         now = self.world.clock.now
         rec = {"i": i, "t": now, "tid": tr.tid, "owner": id_of(self, tr._protocol), "data": data,
-               "fault": fault["k"], "kind": tr.kind}
+               "fault": fault["k"], "kind": tr.kind, "f": fault}
         self.transmissions.append(rec)
         self.world.log("tx", i, tr.tid, data.hex(), fault["k"])
         dev = self.devices.get(tuple(tr.remote))
